@@ -241,23 +241,19 @@ func lspPositionFromIdx(s string, idx int) lsp.Position {
 // Generates (index, lspPosition) pairs in s, stopping if f returns false.
 func walkString(s string, f func(i int, p lsp.Position) bool) {
 	var p lsp.Position
-	lastCR := false
 
 	for i, r := range s {
 		if !f(i, p) {
 			return
 		}
 		switch {
-		case r == '\r':
+		case r == '\n', r == '\r' && !(i+1 < len(s) && s[i+1] == '\n'):
+			// A line break ends here: LF (alone or as the end of CRLF), or a
+			// CR that is not part of CRLF. The CR of a CRLF sequence is counted
+			// as one code unit instead, so that every index - including the
+			// one between CR and LF - has a distinct position.
 			p.Line++
 			p.Character = 0
-		case r == '\n':
-			if lastCR {
-				// Ignore \n if it's part of a \r\n sequence
-			} else {
-				p.Line++
-				p.Character = 0
-			}
 		case r <= 0xFFFF:
 			// Encoded in UTF-16 with one unit
 			p.Character++
@@ -265,7 +261,6 @@ func walkString(s string, f func(i int, p lsp.Position) bool) {
 			// Encoded in UTF-16 with two units
 			p.Character += 2
 		}
-		lastCR = r == '\r'
 	}
 	f(len(s), p)
 }
